@@ -26,22 +26,29 @@ type lockSite struct {
 	Call     ssa.CallInstruction
 	Callback *ssa.Function // nil if not a closure / named function
 	Ordinal  int           // 1-based, source order within Fn
+	// the lock path and lock type operands. For a direct call of the lock primitive they are its arguments; for a call
+	// of a lock wrapper (withStoreLock(dir, fn) { return withLock(Join(dir,"lock"), LOCK_EX, fn) }) they are the
+	// wrapper's operands, to be read with the wrapper's parameters bound to this call's arguments (WEnv).
+	PathArg, TypeArg ssa.Value
+	WEnv             env
+	Wrapper          *ssa.Function
 }
 
 type Facts struct {
-	osConst   map[string]int64 // O_TRUNC ... from the analysed platform's os package
-	sysConst  map[string]int64 // LOCK_EX, LOCK_SH, LOCK_NB, LOCK_UN
-	Effects   []Effect         // all classified external call sites in module functions
-	byCall    map[ssa.CallInstruction]*Effect
-	LockPrim  *ssa.Function
-	LockSites []lockSite
-	Callbacks map[*ssa.Function]*lockSite
-	Chooser   *ssa.Function
-	Entries   []*ssa.Function // internal/ergo functions called from package main
-	Roots     []*ssa.Function // entries + remaining exported functions + everything in main
-	succ      map[*ssa.Function][]cgEdge
-	Anchors   map[string]*ssa.Function
-	Problems  []string
+	osConst      map[string]int64 // O_TRUNC ... from the analysed platform's os package
+	sysConst     map[string]int64 // LOCK_EX, LOCK_SH, LOCK_NB, LOCK_UN
+	Effects      []Effect         // all classified external call sites in module functions
+	byCall       map[ssa.CallInstruction]*Effect
+	LockPrim     *ssa.Function
+	LockSites    []lockSite
+	LockWrappers map[*ssa.Function]bool // functions that forward a func parameter of theirs to the lock primitive
+	Callbacks    map[*ssa.Function]*lockSite
+	Chooser      *ssa.Function
+	Entries      []*ssa.Function // internal/ergo functions called from package main
+	Roots        []*ssa.Function // entries + remaining exported functions + everything in main
+	succ         map[*ssa.Function][]cgEdge
+	Anchors      map[string]*ssa.Function
+	Problems     []string
 }
 
 type cgEdge struct {
@@ -208,6 +215,11 @@ func (f *Facts) acquireWrapper(h *ssa.Function) *ssa.Call {
 	return raw
 }
 
+// isLockFn: the lock primitive or one of its wrappers.
+func (f *Facts) isLockFn(g *ssa.Function) bool {
+	return g != nil && (g == f.LockPrim || f.LockWrappers[g])
+}
+
 func computeFacts(p *Prog) (*Facts, error) {
 	f := &Facts{osConst: map[string]int64{}, sysConst: map[string]int64{}, byCall: map[ssa.CallInstruction]*Effect{},
 		Callbacks: map[*ssa.Function]*lockSite{}, succ: map[*ssa.Function][]cgEdge{}, Anchors: map[string]*ssa.Function{}}
@@ -228,7 +240,7 @@ func computeFacts(p *Prog) (*Facts, error) {
 	// effects
 	for _, fn := range p.Fns {
 		for _, c := range callsIn(fn) {
-			if cal := c.Common().StaticCallee(); cal != nil && p.InModule(cal) {
+			if cal := calleeOf(c.Common()); cal != nil && p.InModule(cal) {
 				continue
 			}
 			if cl, path := f.classifyCall(c); cl != "" {
@@ -249,7 +261,7 @@ func computeFacts(p *Prog) (*Facts, error) {
 					acquires = true
 				}
 			}
-			if h := cc.StaticCallee(); h != nil && p.InModule(h) && f.acquireWrapper(h) != nil {
+			if h := calleeOf(cc); h != nil && p.InModule(h) && f.acquireWrapper(h) != nil {
 				acquires = true // the flock attempt lives in a small helper (tryFlock(fd, lockType) error)
 			}
 			if prm, ok := cc.Value.(*ssa.Parameter); ok && !cc.IsInvoke() {
@@ -292,9 +304,58 @@ func computeFacts(p *Prog) (*Facts, error) {
 						ls.Callback = cb
 					}
 				}
+				if len(c.Common().Args) >= 2 {
+					ls.PathArg, ls.TypeArg = c.Common().Args[0], c.Common().Args[1]
+				}
 				f.LockSites = append(f.LockSites, ls)
 			}
 		}
+		// lock wrappers: a function that hands one of its own func parameters to the primitive. Its call sites are the
+		// lock sites; the call inside it is not a section of its own.
+		f.LockWrappers = map[*ssa.Function]bool{}
+		var sites []lockSite
+		for _, ls := range f.LockSites {
+			prm, isPrm := (ssa.Value)(nil), false
+			if ls.Callback == nil && cbIdx >= 0 && cbIdx < len(ls.Call.Common().Args) {
+				var pp *ssa.Parameter
+				pp, isPrm = resolve(ls.Call.Common().Args[cbIdx]).(*ssa.Parameter)
+				if isPrm && pp.Parent() == ls.Fn {
+					prm = pp
+				} else {
+					isPrm = false
+				}
+			}
+			if !isPrm || ls.Fn.Parent() != nil || len(p.callers[ls.Fn]) == 0 {
+				sites = append(sites, ls)
+				continue
+			}
+			w := ls.Fn
+			f.LockWrappers[w] = true
+			pidx := paramIndex(prm.(*ssa.Parameter))
+			byFn := map[*ssa.Function]int{}
+			for _, cs := range p.callers[w] {
+				byFn[cs.Fn]++
+				ws := lockSite{Fn: cs.Fn, Call: cs.Call, Ordinal: byFn[cs.Fn], PathArg: ls.PathArg, TypeArg: ls.TypeArg, WEnv: env{}, Wrapper: w}
+				for i, wp := range w.Params {
+					if i < len(cs.Call.Common().Args) {
+						ws.WEnv[wp] = cs.Call.Common().Args[i]
+					}
+				}
+				if pidx < len(cs.Call.Common().Args) {
+					switch cb := strip(cs.Call.Common().Args[pidx]).(type) {
+					case *ssa.MakeClosure:
+						ws.Callback = cb.Fn.(*ssa.Function)
+						if m := p.boundMethod[ws.Callback]; m != nil {
+							ws.Callback = m
+						}
+					case *ssa.Function:
+						ws.Callback = cb
+					}
+				}
+				sites = append(sites, ws)
+			}
+		}
+		f.LockSites = sites
 		for i := range f.LockSites {
 			if cb := f.LockSites[i].Callback; cb != nil {
 				f.Callbacks[cb] = &f.LockSites[i]
@@ -338,7 +399,7 @@ func computeFacts(p *Prog) (*Facts, error) {
 		eachInstr(fn, func(r instrRef) {
 			if c, ok := r.In.(ssa.CallInstruction); ok {
 				cc := c.Common()
-				if cal := cc.StaticCallee(); cal != nil && p.InModule(cal) {
+				if cal := calleeOf(cc); cal != nil && p.InModule(cal) {
 					f.succ[fn] = append(f.succ[fn], cgEdge{cal, r.In, "call"})
 				} else if cc.IsInvoke() {
 					for _, m := range methodsByName[cc.Method.Name()] {
@@ -501,7 +562,7 @@ func (f *Facts) resolveAnchors(p *Prog) {
 					return ""
 				}
 				for _, call := range callsIn(g) {
-					if cal := call.Common().StaticCallee(); cal != nil && p.InModule(cal) && cal.Blocks != nil && !seen[cal] && len(p.callers[cal]) == 1 {
+					if cal := calleeOf(call.Common()); cal != nil && p.InModule(cal) && cal.Blocks != nil && !seen[cal] && len(p.callers[cal]) == 1 {
 						seen[cal] = true
 						work = append(work, cal)
 					}
@@ -521,7 +582,7 @@ func (f *Facts) resolveAnchors(p *Prog) {
 				work = work[1:]
 				n += len(callsTo(g, ne))
 				for _, call := range callsIn(g) {
-					cal := call.Common().StaticCallee()
+					cal := calleeOf(call.Common())
 					if cal == nil || !p.InModule(cal) || cal.Blocks == nil || cal == ne {
 						continue
 					}
